@@ -13,7 +13,7 @@ fi
 /venv/bin/python -m py_compile billiard/*.py || echo "DOES NOT COMPILE"
 mkdir -p /tmp/seedev
 for p in $PROPS; do
-  out=$(/venv/bin/python /verif/check.py $p --tier quick --evidence-dir /tmp/seedev 2>&1); rc=$?
+  out=$(/venv/bin/python ${VERIF_ROOT:-/verif}/check.py $p --tier quick --evidence-dir /tmp/seedev 2>&1); rc=$?
   if [ $rc -ne 0 ]; then echo "$p rc=$rc"; echo "$out" | grep -E "^  VIOLATED|ANALYSIS-ERROR" | cut -c1-330; fi
 done
 git checkout -q -- .
